@@ -8,6 +8,18 @@
 //	          wire), a RawLoader configuration and two observing processors (Priority Order 3 and 5,
 //	          i.e. right before and right after the ${} processor, whose Order is 4)
 //
+//	hist    : ONE Configure over time (NewConfigure + viper binder; the RawLoader document loaded once - loaders
+//	          "keep" leaves the loader in place so that later App starts merge it again, "drop" empties the loader
+//	          list after the first Initialize, "none" never loads anything).  steps: set (Configure.Set(key, val)),
+//	          get (Configure.Get(key)), resolve (a tag text through the real ${} processor bound to this Configure):
+//	            mode proc : the processor is taken from processors.NewConfigQuoteAwarePostProcessors(), handed the
+//	                        Configure through PostProcessComponentFactory and called directly on a Property
+//	            mode run  : every resolve is one app.NewApp().Run(app.SetConfigure(cfg), component) - a new start on
+//	                        the same Configure - observed like an e2e case
+//	            mode comp : ONE App.Run with one component per resolve; the observing processor that sits right after
+//	                        the ${} processor performs the set / get steps that follow the n-th resolution when it has
+//	                        seen the n-th component (the order in which the container took the components is reported)
+//
 // Every case runs in a child process (this binary re-executed with VERIF_CHILD=1) that streams one
 // line per case; a case that does not answer within the time limit is recorded as outcome "hang"
 // and the child is restarted on the remaining cases.
@@ -31,6 +43,9 @@ import (
 	"github.com/go-kid/ioc/configure"
 	"github.com/go-kid/ioc/configure/binder"
 	"github.com/go-kid/ioc/configure/loader"
+	"github.com/go-kid/ioc/container"
+	"github.com/go-kid/ioc/container/factory"
+	"github.com/go-kid/ioc/container/processors"
 	"github.com/go-kid/ioc/definition"
 	"github.com/go-kid/ioc/syslog"
 	"github.com/go-kid/ioc/util/el"
@@ -56,6 +71,16 @@ type Case struct {
 	TagText string   `json:"tagtext"` // e2e: hex, the whole tag text
 	FType   string   `json:"ftype"`   // e2e: string | int | any | dep | strs
 	Deps    []string `json:"deps"`    // e2e: names of Dep components
+	Mode    string   `json:"mode"`    // hist: proc | run | comp
+	Loaders string   `json:"loaders"` // hist: keep | drop | none
+	Steps   []HStep  `json:"steps"`   // hist
+}
+
+type HStep struct {
+	Op      string `json:"op"`      // resolve | set | get
+	TagText string `json:"tagtext"` // resolve: hex, the text of a value:"..." tag (on a field of type any)
+	Key     string `json:"key"`     // set / get: hex
+	Val     *Val   `json:"val"`     // set
 }
 
 type Val struct {
@@ -77,6 +102,8 @@ type Out struct {
 	RunErr  bool   `json:"runerr,omitempty"`
 	Final   string `json:"final,omitempty"` // e2e: fmt %v of the field after Run (informational)
 	Vals    []Out  `json:"vals,omitempty"`  // format: one per key
+	Steps   []Out  `json:"steps,omitempty"` // hist: one per step, in the order they were PERFORMED
+	Order   []int  `json:"order,omitempty"` // hist: indices into the case's steps, in the order they were performed
 	Detail  string `json:"detail,omitempty"`
 }
 
@@ -123,6 +150,51 @@ func toVal(a any) Val {
 	default:
 		return Val{T: "other", S: tohex(fmt.Sprintf("%T", a))}
 	}
+}
+
+// fromVal is the Go value a caller of Configure.Set would pass: nil, bool, int, float64, string, []any, map[string]any
+func fromVal(v *Val) any {
+	if v == nil {
+		return nil
+	}
+	switch v.T {
+	case "null":
+		return nil
+	case "bool":
+		return v.B
+	case "int":
+		n, err := strconv.Atoi(v.N)
+		if err != nil {
+			panic(err)
+		}
+		return n
+	case "float":
+		f, err := strconv.ParseFloat(v.N, 64)
+		if err != nil {
+			panic(err)
+		}
+		return f
+	case "str":
+		return unhex(v.S)
+	case "list":
+		l := make([]any, 0, len(v.L))
+		for i := range v.L {
+			l = append(l, fromVal(&v.L[i]))
+		}
+		return l
+	case "map":
+		m := map[string]any{}
+		for _, kv := range v.M {
+			var sub Val
+			b, _ := json.Marshal(kv[1])
+			if err := json.Unmarshal(b, &sub); err != nil {
+				panic(err)
+			}
+			m[unhex(kv[0].(string))] = fromVal(&sub)
+		}
+		return m
+	}
+	panic("bad value type " + v.T)
 }
 
 // ---- direct -------------------------------------------------------------------------------
@@ -321,6 +393,211 @@ func runE2E(c Case) (out Out) {
 	return
 }
 
+// ---- histories on one Configure -------------------------------------------------------------
+
+type holderF struct {
+	F string
+}
+
+func valueComponent(tagtext string) any {
+	tag := reflect.StructTag("value:" + strconv.Quote(tagtext))
+	st := reflect.StructOf([]reflect.StructField{{Name: "F", Type: reflect.TypeOf((*any)(nil)).Elem(), Tag: tag}})
+	return reflect.New(st).Interface()
+}
+
+// seqObserver sits right after the ${} processor (Order 5).  It records TagStr / TagVal of every target component in
+// the order the container hands them over and then runs the hook for that component.
+type seqObserver struct {
+	observer
+	targets map[any]int
+	after   func(ix int, s seen)
+}
+
+func (o *seqObserver) PostProcessProperties(props []*component_definition.Property, c any, n string) ([]*component_definition.Property, error) {
+	ix, ok := o.targets[c]
+	if !ok {
+		return nil, nil
+	}
+	for _, p := range props {
+		if p.StructField.Name == "F" {
+			o.after(ix, seen{ok: true, tagstr: p.TagStr, tagval: p.TagVal})
+		}
+	}
+	return nil, nil
+}
+
+func runHist(c Case) (out Out) {
+	out = Out{ID: c.ID, Outcome: "done"}
+	cfg := configure.NewConfigure()
+	cfg.SetBinder(binder.NewViperBinder("yaml"))
+	if c.Loaders != "none" {
+		cfg.SetLoaders(loader.NewRawLoader([]byte(c.Config)))
+		if err := cfg.Initialize(); err != nil {
+			out.Outcome, out.Detail = "setup", err.Error()
+			return
+		}
+		if c.Loaders == "drop" {
+			cfg.SetLoaders()
+		}
+	}
+	doSetGet := func(ix int) {
+		st := c.Steps[ix]
+		o := Out{ID: ix, Outcome: "done"}
+		p := hx.Guard(func() {
+			if st.Op == "set" {
+				cfg.Set(unhex(st.Key), fromVal(st.Val))
+			} else {
+				vv := toVal(cfg.Get(unhex(st.Key)))
+				o.Val = &vv
+			}
+		})
+		if p != "" {
+			o.Outcome, o.Detail = "panic", p
+		}
+		out.Steps = append(out.Steps, o)
+		out.Order = append(out.Order, ix)
+	}
+	record := func(ix int, post seen, p string, err error) {
+		o := Out{ID: ix}
+		switch {
+		case post.ok:
+			o.Outcome, o.Out, o.TagStr = "done", tohex(post.tagval), tohex(post.tagstr)
+		case p != "":
+			o.Outcome, o.Detail = "panic", p
+		case err != nil:
+			o.Outcome, o.Detail = "err", err.Error()
+		default:
+			o.Outcome = "setup"
+		}
+		if len(o.Detail) > 300 {
+			o.Detail = o.Detail[:300]
+		}
+		out.Steps = append(out.Steps, o)
+		out.Order = append(out.Order, ix)
+	}
+	switch c.Mode {
+	case "proc":
+		proc := processors.NewConfigQuoteAwarePostProcessors()
+		f := factory.Default()
+		f.SetConfigure(cfg)
+		if err := proc.(container.ComponentFactoryPostProcessor).PostProcessComponentFactory(f); err != nil {
+			out.Outcome, out.Detail = "setup", err.Error()
+			return
+		}
+		for ix, st := range c.Steps {
+			if st.Op != "resolve" {
+				doSetGet(ix)
+				continue
+			}
+			comp := &holderF{}
+			meta := component_definition.NewMeta(comp)
+			var field *component_definition.Field
+			for _, fd := range meta.Fields {
+				if fd.StructField.Name == "F" {
+					field = fd
+				}
+			}
+			if field == nil {
+				out.Outcome, out.Detail = "setup", "no field"
+				return
+			}
+			prop := component_definition.NewProperty(field, component_definition.PropertyTypeConfiguration, "value", unhex(st.TagText))
+			var err error
+			tagstr := prop.TagStr
+			p := hx.Guard(func() {
+				_, err = proc.PostProcessProperties([]*component_definition.Property{prop}, comp, "holder")
+			})
+			post := seen{}
+			if p == "" && err == nil {
+				post = seen{ok: true, tagstr: tagstr, tagval: prop.TagVal}
+			}
+			record(ix, post, p, err)
+		}
+	case "run":
+		for ix, st := range c.Steps {
+			if st.Op != "resolve" {
+				doSetGet(ix)
+				continue
+			}
+			comp := valueComponent(unhex(st.TagText))
+			var post seen
+			obs := &seqObserver{observer: observer{ord: 5, name: "verifObserverPost"}, targets: map[any]int{comp: ix},
+				after: func(_ int, s seen) { post = s }}
+			var err error
+			p := hx.Guard(func() {
+				a := app.NewApp()
+				err = a.Run(app.LogLevel(syslog.LvFatal), app.SetConfigure(cfg), app.SetComponents(obs, comp))
+			})
+			record(ix, post, p, err)
+		}
+	case "comp":
+		// leading set / get steps are performed before the start; then one component per resolve
+		ix := 0
+		for ; ix < len(c.Steps) && c.Steps[ix].Op != "resolve"; ix++ {
+			doSetGet(ix)
+		}
+		var resolves []int            // step indices of the resolves
+		afters := map[int][]int{}     // n-th resolution -> the set / get steps that follow it
+		for ; ix < len(c.Steps); ix++ {
+			if c.Steps[ix].Op == "resolve" {
+				resolves = append(resolves, ix)
+			} else {
+				n := len(resolves) - 1
+				afters[n] = append(afters[n], ix)
+			}
+		}
+		targets := map[any]int{}
+		comps := []any{}
+		for _, rix := range resolves {
+			comp := valueComponent(unhex(c.Steps[rix].TagText))
+			targets[comp] = rix
+			comps = append(comps, comp)
+		}
+		nseen := 0
+		lastPre := -1
+		pre := &seqObserver{observer: observer{ord: 3, name: "verifObserverPre"}, targets: targets,
+			after: func(rix int, _ seen) { lastPre = rix }}
+		obs := &seqObserver{observer: observer{ord: 5, name: "verifObserverPost"}, targets: targets}
+		obs.after = func(rix int, s seen) {
+			record(rix, s, "", nil)
+			for _, six := range afters[nseen] {
+				doSetGet(six)
+			}
+			nseen++
+		}
+		var err error
+		p := hx.Guard(func() {
+			a := app.NewApp()
+			err = a.Run(app.LogLevel(syslog.LvFatal), app.SetConfigure(cfg), app.SetComponents(append([]any{pre, obs}, comps...)...))
+		})
+		if p != "" || err != nil {
+			// the start ended inside the ${} processor on the component the pre-observer saw last (when that one was
+			// not completed): the start's outcome is that resolution's outcome
+			o := Out{ID: lastPre}
+			if len(out.Order) > 0 && lastPre >= 0 {
+				for _, done := range out.Order {
+					if done == lastPre {
+						o.ID = -1 // the failure came after the last observed resolution was complete: not a resolution's
+					}
+				}
+			}
+			if p != "" {
+				o.Outcome, o.Detail = "panic", p
+			} else {
+				o.Outcome, o.Detail = "err", err.Error()
+			}
+			if len(o.Detail) > 300 {
+				o.Detail = o.Detail[:300]
+			}
+			out.Steps = append(out.Steps, o)
+			out.Order = append(out.Order, o.ID)
+		}
+	default:
+		out.Outcome, out.Detail = "setup", "bad mode"
+	}
+	return
+}
+
 func runCase(c Case) (out Out) {
 	p := hx.Guard(func() {
 		switch c.Kind {
@@ -332,6 +609,8 @@ func runCase(c Case) (out Out) {
 			out = runFormat(c)
 		case "e2e":
 			out = runE2E(c)
+		case "hist":
+			out = runHist(c)
 		default:
 			out = Out{ID: c.ID, Outcome: "setup", Detail: "bad kind"}
 		}
